@@ -21,6 +21,10 @@ pub struct Case {
     /// repeated points: bit 0 pivot (least vertex) once more, bit 1 pivot twice more, bit 2 the vertex after it,
     /// bit 3 the vertex before it, bit 4 an extra copy of the closing vertex
     pub dup: u8,
+    /// when present the case is an ill-conditioned f64 sliver (shell, and a hole made of the same triple shrunk towards its
+    /// centroid is not possible exactly, so: shell only, or the triple as the hole of a large square): `g` is then ignored
+    #[serde(default)]
+    pub sliver: Option<([(f64, f64); 3], bool)>,
 }
 
 pub struct C05;
@@ -103,9 +107,12 @@ impl Property for C05 {
             3 => geom_strategy(),
             2 => proptest::collection::vec(prop_oneof![areal_strategy(), geom_strategy()], 0..4).prop_map(G::Coll),
         ];
-        (geom, any::<u32>(), xf_strategy(), any::<u8>(), prop_oneof![3 => Just(0u8), 2 => 0u8..32])
-            .prop_map(|(g, flips, xf, rot, dup)| Case { g: flip_rings(&g, flips), xf, rot, dup })
-            .boxed()
+        let lattice = (geom, any::<u32>(), xf_strategy(), any::<u8>(), prop_oneof![3 => Just(0u8), 2 => 0u8..32])
+            .prop_map(|(g, flips, xf, rot, dup)| Case { g: flip_rings(&g, flips), xf, rot, dup, sliver: None });
+        // 1 case in 16: triangles whose orientation sits in the last bits (exactly collinear integer triples nudged by ulps, query
+        // points an ulp off a long segment, thin lattice triangles at 2^50: C03's family), as a shell or as a hole
+        let sliver = (crate::props::c03::triple_strategy(), any::<bool>()).prop_map(|(t, as_hole)| Case { g: G::MultiPoint(vec![]), xf: Xf::ID, rot: 0, dup: 0, sliver: Some((t, as_hole)) });
+        prop_oneof![15 => lattice.boxed(), 1 => sliver.boxed()].boxed()
     }
     fn quota(tier: Tier) -> u64 {
         tier.pick(4_000_000, 60_000_000)
@@ -127,6 +134,10 @@ impl Property for C05 {
         json!({"g": wkt(&c.g), "xf": c.xf, "rot": c.rot, "dup": c.dup})
     }
     fn check(c: &Case, obs: &mut Obs) {
+        if let Some((t, as_hole)) = &c.sliver {
+            check_sliver(t, *as_hole, obs);
+            return;
+        }
         let gg = to_geo(&c.g, &c.xf);
         let tn = c.g.type_name();
         obs.label(format!("type:{tn}"));
@@ -297,4 +308,54 @@ impl Property for C05 {
             _ => {}
         }
     }
+}
+
+
+/// winding and orient on a triangle whose orientation is decided in the last bits; the oracle is the exact orientation sign
+fn check_sliver(t: &[(f64, f64); 3], as_hole: bool, obs: &mut Obs) {
+    use geo::{Coord, Polygon};
+    obs.label("sub:sliver");
+    let in_range = |v: f64| v == 0.0 || (v.is_finite() && v.abs() >= 2f64.powi(-400) && v.abs() <= 2f64.powi(400));
+    if !t.iter().all(|p| in_range(p.0) && in_range(p.1)) {
+        obs.label("skipped:out-of-domain");
+        return;
+    }
+    let o = crate::exact::big::orient_f64(t[0], t[1], t[2]);
+    let naive = (t[1].0 - t[0].0) * (t[2].1 - t[0].1) - (t[1].1 - t[0].1) * (t[2].0 - t[0].0);
+    if o != 0 && (naive == 0.0 || (naive > 0.0) != (o > 0)) {
+        obs.label("sliver:naive-area-misjudges");
+        obs.nontrivial();
+    }
+    let co = |p: (f64, f64)| Coord { x: p.0, y: p.1 };
+    let ring = LineString::new(vec![co(t[0]), co(t[1]), co(t[2]), co(t[0])]);
+    let want = if o > 0 { Some(WindingOrder::CounterClockwise) } else if o < 0 { Some(WindingOrder::Clockwise) } else { None };
+    let ctx = || format!("{:?} bits {:?}", t, t.map(|p| (p.0.to_bits(), p.1.to_bits())));
+    if o != 0 {
+        let got = ring.winding_order();
+        obs.expect(got == want, "winding_order|sliver", || format!("got {:?} want {:?}; {}", got, want, ctx()));
+    } else {
+        obs.label("sliver:exactly-collinear");
+        return;
+    }
+    let rev = LineString::new(ring.0.iter().rev().copied().collect());
+    let (ccw, cw) = if o > 0 { (&ring, &rev) } else { (&rev, &ring) };
+    let poly = if as_hole {
+        // a big square around it (its own orientation is unambiguous)
+        let m = t.iter().fold(1.0f64, |m, p| m.max(p.0.abs()).max(p.1.abs())) * 4.0;
+        Polygon::new(LineString::new(vec![co((-m, -m)), co((m, -m)), co((m, m)), co((-m, m)), co((-m, -m))]), vec![ring.clone()])
+    } else {
+        Polygon::new(ring.clone(), vec![])
+    };
+    for dir in [Direction::Default, Direction::Reversed] {
+        let out = poly.orient(dir);
+        let target = if as_hole { &out.interiors()[0] } else { out.exterior() };
+        // exterior counter-clockwise / holes clockwise by default, the opposite when reversed
+        let want_ccw = as_hole != matches!(dir, Direction::Default);
+        let expect = if want_ccw { ccw } else { cw };
+        obs.cmp();
+        obs.expect(&target.0 == &expect.0, &format!("orient|sliver|{}", if as_hole { "hole" } else { "shell" }), || format!("{:?}: got {:?} want {:?}; {}", dir, target.0, expect.0, ctx()));
+    }
+    let mp = geo::MultiPolygon::new(vec![poly.clone()]);
+    let out = mp.orient(Direction::Default);
+    obs.expect(out.0[0] == poly.orient(Direction::Default), "orient|sliver|MultiPolygon-differs", || ctx());
 }
